@@ -87,9 +87,16 @@ func (x *Value) check(v any, op string) {
 	}
 }
 
-func (x *Value) Load() any      { pt(); return x.v }
-func (x *Value) Store(v any)    { pt(); x.check(v, "store"); x.v = v; pp() }
-func (x *Value) Swap(v any) any { pt(); x.check(v, "swap"); o := x.v; x.v = v; pp(); return o }
+func (x *Value) Load() any   { pt(); return x.v }
+func (x *Value) Store(v any) { pt(); x.check(v, "store"); x.v = v; pp() }
+func (x *Value) Swap(v any) any {
+	pt()
+	x.check(v, "swap")
+	o := x.v
+	x.v = v
+	pp()
+	return o
+}
 func (x *Value) CompareAndSwap(o, n any) bool {
 	pt()
 	if n == nil {
